@@ -1,47 +1,46 @@
-import Rangers.Model.TrieIter
-import Rangers.Model.TrieSpec
-import Rangers.Proofs.TrieWF
+import Rangers.Proofs.TrieIterMachine
+import Rangers.Props.C02
 /-!
 # C02, the NodeIterator stack machine (`Model/TrieIter.lean`)
 
-The general statement `iterMachine t start = iterFrom t start` is **not proved**; it is checked
-at run time (the driver runs both on every `iter` op and flags a difference) and by the
-correspondence run against the Go iterator.  Proved here: the order in which `nextChild`
-visits the slots of a full node (the cause of finding `iter-order-prefix-keys`), and the machine's
-answers on the finding's witness and on seek witnesses, by kernel evaluation.
+Proved: **full iteration** (`NodeIterator(nil)`, what `Iterator` consumers such as `MinerIterator` use)
+by the stack machine — `seek`, `peek`, `nextChild`, `push`, `pop`, `Next`, leaf selection — returns
+exactly `iterFrom t []`, for every minimal-form trie (`iterator_machine_full`, by a big-step
+"draining" invariant over the frame stack), hence after any history exactly the live pairs in
+hex-path order, a key after its proper extensions (`machine_iter_complete`, `machine_order_bytes`);
+the slot order of `nextChild`; witnesses by kernel evaluation.
+Not proved: iteration from a non-empty start key (`seekLoop` with `descend = HasPrefix(key, path)`);
+that case is checked at run time (the driver runs machine and `iterFrom` side by side on every
+`iter` op and flags a difference) and by the correspondence run against the Go iterator.
 -/
 namespace Rangers.Props.C02Iter
 open Rangers Rangers.Trie
+
+/-- **the stack machine = the specification**, full iteration -/
+theorem iterator_machine_full (t : Node) (ht : WFRoot t) : iterMachine t [] = iterFrom t [] :=
+  iterMachine_full t ht
+
+/-- after any history the machine returns exactly the live pairs -/
+theorem machine_iter_complete (ops : List Op) (k v : Bytes) :
+    (k, v) ∈ iterMachine (run ops) [] ↔ finalMap ops k = some v := by
+  rw [iterMachine_full _ (C02.run_wf ops)]; exact C02.iter_complete ops k v
+
+/-- …in the order of the known finding: bytewise ascending except that a key follows every
+    longer key it is a proper prefix of -/
+theorem machine_order_bytes (ops : List Op) :
+    (iterMachine (run ops) []).Pairwise
+      (fun e1 e2 => (e1.1 < e2.1 ∧ ¬ e1.1 <+: e2.1) ∨ (e2.1 <+: e1.1 ∧ e2.1 ≠ e1.1)) := by
+  rw [iterMachine_full _ (C02.run_wf ops)]; exact C02.iter_order_bytes ops
+
+-- non-vacuity
+example : WFRoot (run [.upd [0] [1], .upd [0, 0] [2]]) := C02.run_wf _
 
 /-- `nextChild` on a full node returns the first occupied slot at or after `from`, in ascending
     slot order — so the value slot 16 comes after every child slot 0..15 -/
 theorem firstChild_spec (cs : List Node) (frm i : Nat) (c : Node) (h : firstChild cs frm = some (i, c)) :
     frm ≤ i ∧ i < cs.length ∧ c = cs.getD i .nil ∧ c ≠ .nil ∧
-    ∀ j, frm ≤ j → j < i → cs.getD j .nil = .nil := by
-  unfold firstChild at h
-  cases hf : (List.range cs.length).filter (fun i => frm ≤ i && !isNil (cs.getD i .nil)) with
-  | nil => rw [hf] at h; simp at h
-  | cons x xs =>
-    rw [hf] at h
-    simp only [List.head?_cons, Option.map_some, Option.some.injEq, Prod.mk.injEq] at h
-    obtain ⟨rfl, rfl⟩ := h
-    have hx : x ∈ (List.range cs.length).filter (fun i => frm ≤ i && !isNil (cs.getD i .nil)) := by rw [hf]; simp
-    simp only [List.mem_filter, List.mem_range, Bool.and_eq_true, decide_eq_true_eq, Bool.not_eq_true'] at hx
-    refine ⟨hx.2.1, hx.1, rfl, (isNil_false_iff _).mp hx.2.2, fun j hj1 hj2 => ?_⟩
-    -- `range` is ascending, so anything the filter kept before `x` would come first
-    by_cases hne : cs.getD j .nil = .nil
-    · exact hne
-    exfalso
-    have hjm : j ∈ (List.range cs.length).filter (fun i => frm ≤ i && !isNil (cs.getD i .nil)) := by
-      simp only [List.mem_filter, List.mem_range, Bool.and_eq_true, decide_eq_true_eq, Bool.not_eq_true']
-      exact ⟨by omega, hj1, (isNil_false_iff _).mpr hne⟩
-    have hsorted : ((List.range cs.length).filter (fun i => frm ≤ i && !isNil (cs.getD i .nil))).Pairwise (· < ·) :=
-      List.Pairwise.filter _ (List.pairwise_lt_range)
-    rw [hf] at hsorted hjm
-    have := (List.pairwise_cons.mp hsorted).1
-    cases hjm with
-    | head => omega
-    | tail _ h' => have := this j h'; omega
+    ∀ j, frm ≤ j → j < i → cs.getD j .nil = .nil :=
+  firstChild_some h
 
 /-- the stack machine on the finding's witness: after writing keys `00` and `0000`, the longer
     key is returned first (compare `Props.C02.iter_ascending_counterexample`) -/
